@@ -213,6 +213,7 @@ package engine
 // ---- C19 / C18 / C02: the merged environment is built from the session's CURRENT base environment on every call (a
 // redaction policy, language list or timezone installed by a resume takes effect at once; nothing is cached)
 //@ func (s *session) MergedEnvironment
+//@   inline
 //@   requires s != nil && !isnil(s.assets)
 //@   assigns nothing
-//@   ensures [wraps_current] typeis(result, *flows.sessionEnvironment) && result.(*flows.sessionEnvironment) != nil && typeis(result.(*flows.sessionEnvironment).Environment, *flows.assetsEnvironment) && result.(*flows.sessionEnvironment).Environment.(*flows.assetsEnvironment).Environment == s.env
+//@   ensures [wraps_current] typeis(result, *flows.sessionEnvironment) && result.(*flows.sessionEnvironment) != nil && typeis(result.(*flows.sessionEnvironment).Environment, *flows.assetsEnvironment) && result.(*flows.sessionEnvironment).Environment.(*flows.assetsEnvironment).Environment == s.env && typeis(result.(*flows.sessionEnvironment).session, *session) && result.(*flows.sessionEnvironment).session.(*session) == s
